@@ -18,6 +18,7 @@ EXT = {"python": "py", "javascript": "js", "java": "java", "c": "c", "php": "php
 
 FULL_C_LANG = "javascript"
 NEW_KINDS = {"cfor-noupd", "switch-dm"}
+FULL_ALPHABET = {"if", "if-else", "while", "cfor", "dowhile", "switch", "try-except", "break", "continue", "return", "raise", "raise@try", "raise@nested"}
 TESTED = {"if", "if-else", "while", "while-else", "cfor", "cfor-noupd", "dowhile"}
 CLASS_OPS = ("class_decl", "interface_decl", "record_decl", "enum_decl", "struct_decl")
 
@@ -230,12 +231,14 @@ def make_batches(quick):
             pair = (feats & skel.C_ONLY and feats & {"break", "continue", "return"}
                     and feats <= skel.C_ONLY | {"break", "continue", "return", "if", "while"}
                     and (not feats & {"switch", "switch-dm"} or "continue" in feats))
-            if quick and pair and feats & NEW_KINDS and not feats <= NEW_KINDS | {"break", "continue", "return", "if"}:
-                pair = False    # quick: the newer kinds (for without update, default label in the middle) pair with `if` only
-            if lang != "python" and nc == 2 and not pair and (quick or lang != FULL_C_LANG):
+            if pair and feats & NEW_KINDS and not feats <= NEW_KINDS | {"break", "continue", "return", "if"}:
+                pair = False    # the newer kinds (for without update, default label in the middle) pair with `if` only
+            full = not quick and lang == FULL_C_LANG and feats <= FULL_ALPHABET
+            if lang != "python" and nc == 2 and not pair and not full:
                 continue        # C-family languages get all 1-compound skeletons and the loop/switch x jump pairs; thorough adds
-                                # every 2-compound skeleton for one of them (the CFG builder is shared, the frontends differ in
-                                # how they lower loops / switch / try, which the 1-compound skeletons and the pairs exercise)
+                                # every 2-compound skeleton over FULL_ALPHABET for one of them (the CFG builder is shared, the
+                                # frontends differ in how they lower loops / switch / try, which the 1-compound skeletons and the
+                                # pairs exercise)
             # 0/1-compound skeletons also as parameterless methods; skeletons with a test also with every test rendered as a
             # comparison, whose value is computed by statements of its own before the test (quick: 0/1-compound only)
             variants = [(True, False)] if nc > 1 else [(True, False), (False, False)]
